@@ -324,7 +324,7 @@ def run(ctx, model_ok):
         _, st, ev = gens[i]
         tid = dict(ev).get('tid', {'i': 0})
         tid = tid.get('i', 0) if isinstance(tid, dict) else 0
-        vreq.append({'strings': [[j, s] for j, s in enumerate(st)], 'event': Dd(ev), 'via_dump': True,
+        vreq.append({'strings': [[j, s] for j, s in enumerate(st)], 'event': Dd(ev), 'via_dump': True, 'unaligned': len(vreq) % 2 == 1,
                      'threads': [[tid, 4242, 'mapped-process'], [1, 1, 'launchd']]})
     vres = vlib.run_impl('run_oslog.py', {'cases': vreq})['results'] if vreq else []
     ctx.evaluations += len(vreq)
